@@ -9,8 +9,14 @@ import sys
 
 out = {}
 skip = set(sys.argv[1:])          # e.g. C01 C02: properties whose mutants were already re-run
+only = set(os.environ.get("SEED_ONLY", "").split()) or None      # e.g. SEED_ONLY="C05 C09": only these properties
+maxk = int(os.environ.get("SEED_MAXK", "99"))                    # only mutants numbered <= this
 for meta in sorted(glob.glob("/verif/seeded/C*/mutant*/meta.json")):
     if os.path.basename(os.path.dirname(os.path.dirname(meta))) in skip:
+        continue
+    if only and os.path.basename(os.path.dirname(os.path.dirname(meta))) not in only:
+        continue
+    if int(os.path.basename(os.path.dirname(meta)).replace("mutant", "")) > maxk:
         continue
     d = os.path.dirname(meta)
     m = json.load(open(meta))
